@@ -2,7 +2,7 @@ import Proofs.Lemmas.BeaconBlockFrames
 /-!
 # C01/C03 — the premise `OpSteps` discharged for phase0 blocks, operation kind by operation kind
 
-`P0Inv cfg S0 p Bm C k ctx st`: the invariant of phase0 block processing with `k` units of budget, relative to the block's
+`P0Inv cfg S0 p Bm C k ctx st`: the invariant of block processing (any fork; `P0Const` no longer fixes the fork) with `k` units of budget, relative to the block's
 pre-state `S0` (`SlashInv` with `k · MAX_VALIDATORS_PER_COMMITTEE` slashings of headroom, the context's proposer, the
 randao vector length, the registry below the `ZigZagJoin` marker). Every operation kind proved here takes
 `P0Inv (k+1)` to `P0Inv k` and simulates the specification under `P0Inv (k+1)`.
@@ -94,7 +94,6 @@ theorem SlashInv.initiate {cfg : Config} {s0 : State} {p A Bm C j : Nat} {st st'
 
 /-- the constants of a phase0 block context: what does not change while the block is processed -/
 structure P0Const (cfg : Config) (S0 : State) (Bm C : Nat) : Prop where
-  fork0 : S0.fork = .phase0
   shard : S0.slot / cfg.SLOTS_PER_EPOCH + cfg.SHARD_COMMITTEE_PERIOD < 2 ^ 64
   hC : C + 1 + cfg.MIN_VALIDATOR_WITHDRAWABILITY_DELAY < 2 ^ 64
   hepoch : S0.slot / cfg.SLOTS_PER_EPOCH + cfg.EPOCHS_PER_SLASHINGS_VECTOR < 2 ^ 64
@@ -124,7 +123,7 @@ theorem P0Inv.mono {cfg : Config} {S0 : State} {p Bm C k : Nat} {ctx : Ctx} {st 
 theorem P0Inv.facts {cfg : Config} {S0 : State} {p Bm C k : Nat} {ctx : Ctx} {st : State}
     (K : P0Const cfg S0 Bm C) (h : P0Inv cfg S0 p Bm C (k + 1) ctx st) :
     ctx.activeCount = (st.validators.filter (is_active_validator · (st.slot / cfg.SLOTS_PER_EPOCH))).length ∧
-    ExitSmall cfg st ∧ SlashSmall cfg st ∧ st.fork = .phase0 ∧
+    ExitSmall cfg st ∧ SlashSmall cfg st ∧ st.fork = S0.fork ∧
     SlashInv cfg S0 p ctx.activeCount Bm C (k * cfg.MAX_VALIDATORS_PER_COMMITTEE + cfg.MAX_VALIDATORS_PER_COMMITTEE) st := by
   have hs : SlashInv cfg S0 p ctx.activeCount Bm C (k * cfg.MAX_VALIDATORS_PER_COMMITTEE + cfg.MAX_VALIDATORS_PER_COMMITTEE) st := by
     have := h.slash; rw [Nat.succ_mul] at this; exact this
@@ -134,7 +133,7 @@ theorem P0Inv.facts {cfg : Config} {S0 : State} {p Bm C k : Nat} {ctx : Ctx} {st
         k * cfg.MAX_VALIDATORS_PER_COMMITTEE + cfg.MAX_VALIDATORS_PER_COMMITTEE := by omega
     rw [this]; exact hs
   obtain ⟨he, hsm⟩ := hs1.small K.hC K.hepoch K.hBm
-  refine ⟨?_, he, hsm, by rw [hs.fork]; exact K.fork0, hs⟩
+  refine ⟨?_, he, hsm, hs.fork, hs⟩
   rw [hs.slot]; exact hs.active.symm
 
 
@@ -393,9 +392,9 @@ structure SlashExitBlock (cfg : Config) (block : SignedBlock) : Prop where
 
 /-- `OpSteps` for `P0Inv`: every field discharged for phase0 blocks of slashings and exits -/
 theorem opSteps_slashExit (cfg : Config) (S0 : State) (p Bm C : Nat) (K : P0Const cfg S0 Bm C) (block : SignedBlock)
-    (hb : SlashExitBlock cfg block) : OpSteps cfg block .phase0 (P0Inv cfg S0 p Bm C) :=
+    (hF : S0.fork = .phase0) (hb : SlashExitBlock cfg block) : OpSteps cfg block .phase0 (P0Inv cfg S0 p Bm C) :=
   { mono := fun _ _ _ h => h.mono
-    fork := fun _ _ _ h => by rw [h.slash.fork]; exact K.fork0
+    fork := fun _ _ _ h => by rw [h.slash.fork]; exact hF
     header := fun k ctx st hi => p0_header cfg S0 p Bm C block k ctx st hi
     payload := fun ctx payload hpl => by rw [hb.payload] at hpl; cases hpl
     withdrawals := fun ctx payload hpl => by rw [hb.payload] at hpl; cases hpl
@@ -411,12 +410,12 @@ theorem opSteps_slashExit (cfg : Config) (S0 : State) (p Bm C : Nat) (K : P0Cons
 
 /-- `M_block_refines_S` / `M_sound` WITHOUT a premise for phase0 blocks of slashings and exits: for every pre-state `S0`
 satisfying `P0Inv` with `blockNeed block k` units of budget -/
-theorem processBlock_slashExit (cfg : Config) (S0 : State) (p Bm C k : Nat) (K : P0Const cfg S0 Bm C) (ctx : Ctx) (block : SignedBlock)
+theorem processBlock_slashExit (cfg : Config) (S0 : State) (p Bm C k : Nat) (K : P0Const cfg S0 Bm C) (hF : S0.fork = .phase0) (ctx : Ctx) (block : SignedBlock)
     (hb : SlashExitBlock cfg block) (hi : P0Inv cfg S0 p Bm C (blockNeed block k) ctx S0)
     (htyped : Block.check_types cfg block = .ok ()) :
     Sim (Block.process_block cfg S0 block) (processBlock cfg ctx S0 block) ∧
     ∀ st', processBlock cfg ctx S0 block = .ok st' → ∃ ctx', P0Inv cfg S0 p Bm C k ctx' st' :=
-  ⟨processBlock_sim (opSteps_slashExit cfg S0 p Bm C K block hb) k ctx S0 hi htyped,
-   processBlock_inv (opSteps_slashExit cfg S0 p Bm C K block hb) k ctx S0 hi⟩
+  ⟨processBlock_sim (opSteps_slashExit cfg S0 p Bm C K block hF hb) k ctx S0 hi htyped,
+   processBlock_inv (opSteps_slashExit cfg S0 p Bm C K block hF hb) k ctx S0 hi⟩
 
 end Zrnt.Proofs.BlockM
